@@ -26,7 +26,7 @@ func gapBucket(ms int) string {
 func routeGen(kind string, sequential bool) func(r *rand.Rand, tier string) []spec.Case {
 	return func(r *rand.Rand, tier string) []spec.Case {
 		var out []spec.Case
-		rounds := map[string][2]int{"mux": {40, 600}, "grpc": {30, 400}, "grpcmux": {16, 300}}[kind]
+		rounds := map[string][2]int{"mux": {40, 2000}, "grpc": {30, 1500}, "grpcmux": {16, 300}}[kind]
 		n := rounds[0]
 		if tier == "thorough" {
 			n = rounds[1]
@@ -95,6 +95,17 @@ func routeGen(kind string, sequential bool) func(r *rand.Rand, tier string) []sp
 			if kind == "mux" {
 				p.DispG, p.DispN = 1+r.Intn(6), 1+r.Intn(5)
 			}
+			if kind == "grpcmux" && (i%8 == 4 || i%8 == 6) && len(p.Items) > 6 {
+				// one establishment whose acceptor only starts serving 6 s after it registered
+				// (slow server construction): the dialled connection's first call must still work
+				for j := range p.Items {
+					if j >= 3 && !p.Items[j].Redial && p.Items[j].Dir == "plugin" {
+						p.Items[j].SlowMs, p.Items[j].AcceptFirst, p.Items[j].GapMs = 6000, true, 0
+						p.Items = p.Items[:min(len(p.Items), j+6)]
+						break
+					}
+				}
+			}
 			if kind == "grpcmux" && i%4 == 3 {
 				// a short sequence whose redials land on the instant the broker expires
 				// the bookkeeping of the previous dial to the same listener (5 s later)
@@ -109,6 +120,31 @@ func routeGen(kind string, sequential bool) func(r *rand.Rand, tier string) []sp
 				}
 			}
 			out = append(out, spec.Case{Kind: kind, P: spec.MustJSON(p)})
+		}
+		if kind == "grpc" {
+			// the same rounds through a real plugin subprocess: Cmd / custom runner /
+			// custom runner whose plugin sees the socket directory under another path
+			// (address translation in both directions), with and without AutoMTLS
+			np := 6
+			if tier == "thorough" {
+				np = 60
+			}
+			for i := 0; i < np; i++ {
+				p := spec.RouteCase{Kind: kind, Seed: r.Int63n(1 << 30), Proc: []string{"runner-translate", "runner", "cmd"}[i%3], TLS: []string{"none", "auto"}[(i/3)%2]}
+				k := 2 + r.Intn(14)
+				nextID := map[string]uint32{"host": 1, "plugin": 1}
+				for j := 0; j < k; j++ {
+					it := spec.RouteItem{Dir: pick(r, []string{"host", "plugin"}), AcceptFirst: r.Intn(2) == 0, GapMs: pick(r, []int{0, 0, 10, 50, 300})}
+					accSide := "plugin"
+					if it.Dir == "plugin" {
+						accSide = "host"
+					}
+					it.ID = nextID[accSide]
+					nextID[accSide]++
+					p.Items = append(p.Items, it)
+				}
+				out = append(out, spec.Case{Kind: "grpc-proc", P: spec.MustJSON(p)})
+			}
 		}
 		return out
 	}
@@ -132,6 +168,7 @@ func routeJudge(prop string) func(c spec.Case, evs []spec.Event, d *Death) CaseR
 			}
 		}
 		acc, dial := map[int]*spec.RouteObs{}, map[int]*spec.RouteObs{}
+		accCall, dialCall := map[int]int64{}, map[int]int64{}
 		var disp []spec.DispObs
 		var healths []spec.RouteHealth
 		var end spec.RouteEnd
@@ -139,6 +176,14 @@ func routeJudge(prop string) func(c spec.Case, evs []spec.Event, d *Death) CaseR
 		for i := range evs {
 			e := &evs[i]
 			switch {
+			case e.Ev == "call" && (e.Op == "accept" || e.Op == "dial"):
+				var o spec.RouteObs
+				decodeD(e, &o)
+				if e.Op == "accept" {
+					accCall[o.Idx] = e.T
+				} else {
+					dialCall[o.Idx] = e.T
+				}
 			case e.Ev == "ret" && e.Op == "accept":
 				var o spec.RouteObs
 				decodeD(e, &o)
@@ -202,13 +247,26 @@ func routeJudge(prop string) func(c spec.Case, evs []spec.Event, d *Death) CaseR
 				continue
 			}
 			res.Counters["pairs"]++
+			// "issued within the pending window": judged on the recorded call
+			// instants, with a margin, so that a loaded machine stretching a 4 s
+			// gap towards 5 s cannot manufacture an alarm
+			measuredGap := accCall[i] - dialCall[i]
+			if measuredGap < 0 {
+				measuredGap = -measuredGap
+			}
+			insideWindow := measuredGap <= int64(4300*time.Millisecond)
+			if !insideWindow {
+				res.Counters["pairs_outside_window_not_judged"]++
+			}
 			ord := "dial-first"
 			if it.AcceptFirst {
 				ord = "accept-first"
 			}
 			if p.Kind == "mux" {
 				if a.Err != "" || dd.Err != "" {
-					viol("pair-failed:"+ord, fmt.Sprintf("%s: accept err=%q dial err=%q (both issued within the pending window)", desc, a.Err, dd.Err))
+					if insideWindow {
+						viol("pair-failed:"+ord, fmt.Sprintf("%s: accept err=%q dial err=%q (issued %d ms apart, inside the pending window)", desc, a.Err, dd.Err, measuredGap/1e6))
+					}
 					continue
 				}
 				if dd.PeerNonce != a.Nonce || a.PeerNonce != dd.Nonce || dd.PeerID != a.ID || a.PeerID != dd.ID {
@@ -222,7 +280,9 @@ func routeJudge(prop string) func(c spec.Case, evs []spec.Event, d *Death) CaseR
 				}
 			} else {
 				if dd.Err != "" {
-					viol("pair-failed:"+ord, fmt.Sprintf("%s: %s", desc, dd.Err))
+					if insideWindow {
+						viol("pair-failed:"+ord, fmt.Sprintf("%s: %s (accept and dial issued %d ms apart)", desc, dd.Err, measuredGap/1e6))
+					}
 					continue
 				}
 				if want := fmt.Sprintf("%d/%s", a.ID, a.Nonce); dd.Msg != want {
@@ -260,13 +320,31 @@ func routeJudge(prop string) func(c spec.Case, evs []spec.Event, d *Death) CaseR
 				viol("earlier-connection-broken", fmt.Sprintf("after establishment %d: earlier brokered connections: %v", h.Idx, h.Reping))
 			}
 		}
+		if p.Proc == "runner" || p.Proc == "runner-translate" {
+			// every address crossing the host/plugin boundary must go through the runner's translator
+			hostAccepts, hostDials := 0, 0
+			for _, it := range p.Items {
+				if it.Dir == "plugin" {
+					hostAccepts++
+				} else {
+					hostDials++
+				}
+			}
+			if end.Returned && end.H2PCalls < hostAccepts {
+				viol("translator-skipped:HostToPlugin", fmt.Sprintf("%d host-side accepts but HostToPlugin was called %d times", hostAccepts, end.H2PCalls))
+			}
+			if end.Returned && end.P2HCalls < hostDials+1 {
+				viol("translator-skipped:PluginToHost", fmt.Sprintf("%d host-side dials + the main address but PluginToHost was called %d times", hostDials, end.P2HCalls))
+			}
+			res.Counters["translator_calls"] += end.H2PCalls + end.P2HCalls
+		}
 		var ss []string
 		for s := range shapes {
 			ss = append(ss, s)
 		}
 		sort.Strings(ss)
 		res.Counters["max_concurrently_pending"] = 0
-		res.Class = fmt.Sprintf("%s ids=%s maxpend=%s shapes=%d disp=%d", p.Kind, sizeBucket(len(p.Items)), sizeBucket(end.MaxPend), len(ss), p.DispG)
+		res.Class = fmt.Sprintf("%s ids=%s maxpend=%s shapes=%d disp=%d proc=%s tls=%s", p.Kind, sizeBucket(len(p.Items)), sizeBucket(end.MaxPend), len(ss), p.DispG, p.Proc, p.TLS)
 		res.Sample = map[string]any{"kind": p.Kind, "ids": len(p.Items), "max_concurrently_pending": end.MaxPend, "shapes": ss, "dispense_goroutines": p.DispG, "first_items": p.Items[:min(3, len(p.Items))]}
 		res.Counters["hook:"+strings.Join([]string{"any"}, "")] = 0
 		return res
@@ -321,21 +399,21 @@ func init() {
 		ID: "C06", Level: "exploration", Race: true, TestName: "TestC06",
 		Gen: routeGen("mux", false), Batch: 10, Children: 4, PerCase: 8 * time.Second, Base: 120 * time.Second,
 		Judge: routeJudge("C06"), Finish: routeFinish("C06", "mux.run.gotID", "mux.accept.gotConn", "mux.dial.wroteID", "rpcserver.dispense.reserved"),
-		Rule: "a case = one round on a fresh in-process net/rpc connection pair (both ends real go-plugin code): k in 1..64 distinct ids all outstanding concurrently, each with random dialling side, accept-first or dial-first, gap (0, <50 ms, <500 ms, up to 1 s quick / 4 s thorough) and payload length, concurrent with 1-6 goroutines dispensing 1-5 distinct plugin names; seeded 0-3 ms jitter at the mux hook points. Each end records the token it read; the oracle checks the dial(id)<->accept(id) bijection, byte-exact payloads, no stray bytes, no failure inside the window, dispense name/serial uniqueness. Class = (#ids bucket, max concurrently pending bucket, #distinct (dir,order,gap) shapes, #dispense goroutines)",
+		Rule:        "a case = one round on a fresh in-process net/rpc connection pair (both ends real go-plugin code): k in 1..64 distinct ids all outstanding concurrently, each with random dialling side, accept-first or dial-first, gap (0, <50 ms, <500 ms, up to 1 s quick / 4 s thorough) and payload length, concurrent with 1-6 goroutines dispensing 1-5 distinct plugin names; seeded 0-3 ms jitter at the mux hook points. Each end records the token it read; the oracle checks the dial(id)<->accept(id) bijection, byte-exact payloads, no stray bytes, no failure inside the window, dispense name/serial uniqueness. Class = (#ids bucket, max concurrently pending bucket, #distinct (dir,order,gap) shapes, #dispense goroutines)",
 		Assumptions: []string{"gaps stay at least 1 s inside the ~5 s pending window", "the plugin side runs in the same process through plugin.TestPluginRPCConn"},
 	})
 	register(&Prop{
 		ID: "C07", Level: "exploration", Race: true, TestName: "TestC07",
 		Gen: routeGen("grpc", false), Batch: 8, Children: 4, PerCase: 8 * time.Second, Base: 120 * time.Second,
 		Judge: routeJudge("C07"), Finish: routeFinish("C07", "grpcbroker.accept.listening", "grpcbroker.run.recv", "grpcbroker.dial.gotInfo"),
-		Rule: "a case = one round on a fresh in-process gRPC connection pair without multiplexing: k in 1..32 distinct ids outstanding concurrently, random direction / order / gap, each accepted id served (AcceptAndServe) by a PingPong service answering '<id>/<nonce>'; the dialler's first call must be answered by exactly its id's server; seeded jitter at the grpcbroker hook points; afterwards control Ping and a re-ping of every brokered connection",
+		Rule:        "a case = one round on a fresh in-process gRPC connection pair without multiplexing: k in 1..32 distinct ids outstanding concurrently, random direction / order / gap, each accepted id served (AcceptAndServe) by a PingPong service answering '<id>/<nonce>'; the dialler's first call must be answered by exactly its id's server; seeded jitter at the grpcbroker hook points; afterwards control Ping and a re-ping of every brokered connection",
 		Assumptions: []string{"gaps stay at least 1 s inside the ~5 s pending window", "in-process pair via plugin.TestPluginGRPCConn (no TLS); TLS / address-translation variants run through real subprocesses in C12/C14"},
 	})
 	register(&Prop{
 		ID: "C08", Level: "exploration", Race: true, TestName: "TestC08",
 		Gen: routeGen("grpcmux", true), Batch: 2, Children: 8, PerCase: 40 * time.Second, Base: 120 * time.Second,
 		Judge: routeJudge("C08"), Finish: routeFinish("C08", "grpcbroker.accept.mux.registering", "grpcmux.server.accepted", "grpcmux.client.unblocked", "grpcbroker.knock.sent"),
-		Rule: "a case = a sequence of 20-50 (quick) / 20-200 (thorough) brokered connections on one multiplexed in-process gRPC pair, established strictly one at a time (documented contract), each with random direction, accept-first or dial-first and gap 0-200 ms; after every establishment the control connection is pinged, the main service is called and every earlier brokered connection is re-pinged (must still be answered by its own id's server); seeded 0-3 ms jitter at the hook points between knock listener start, listener registration, knock acceptance and stream acceptance",
+		Rule:        "a case = a sequence of 20-50 (quick) / 20-200 (thorough) brokered connections on one multiplexed in-process gRPC pair, established strictly one at a time (documented contract), each with random direction, accept-first or dial-first and gap 0-200 ms; after every establishment the control connection is pinged, the main service is called and every earlier brokered connection is re-pinged (must still be answered by its own id's server); seeded 0-3 ms jitter at the hook points between knock listener start, listener registration, knock acceptance and stream acceptance",
 		Assumptions: []string{"concurrent establishment is out of scope (documented as unsupported) and never generated", "the main gRPC server does not implement PingPong, so a stream routed to the main listener shows as Unimplemented"},
 	})
 }
